@@ -28,8 +28,10 @@ def cell_switches(host, cfg, switches):
     hv = tuple(int(x) for x in host.split("."))
     if "fstring-field-string-literal" in switches and hv >= (3, 12) and cfg[0] == "ast.unparse":
         out.add("fstring-field-string-literal")
-    if "oneliner-fstring-field-escape" in switches and hv >= (3, 12) and cfg[0] == "oneliner":
-        out.add("field-literal-needs-escape")     # expr_unparse of a 3.12+ host writes the escape into the field
+    if "oneliner-fstring-field-escape" in switches and cfg[0] == "oneliner":
+        # expr_unparse of a 3.12+ host writes the escape into the field (invalid before 3.12);
+        # on older hosts it refuses the same program: both sides of one open finding
+        out.add("field-literal-needs-escape")
     if "ast-unparse-host-syntax" in switches and cfg[0] == "ast.unparse":
         out.add("walrus-index-or-set")            # ast.unparse of 3.10+ drops the parentheses
         if hv >= (3, 11):
@@ -127,6 +129,7 @@ def check_program(part, pool_, source, tags, switches, label):
     esc_lit = None
     preds = {}
     texts = {}
+    refused, accepted = {}, {}
     for host in hosts:
         for cfg in env.ALL_CFGS:
             sw = cell_switches(host, cfg, switches)
@@ -163,8 +166,19 @@ def check_program(part, pool_, source, tags, switches, label):
                 # of C01/C05/C06/C07/C13 (same oracle, other interpreter).
                 part["classes"]["rejected-on-host:" + host] += 1
                 part["extra"]["rejections"] = part["extra"].get("rejections", 0) + 1
+                refused.setdefault(tuple(cfg), []).append((host, c.get("err")))
                 continue
+            accepted.setdefault(tuple(cfg), []).append(host)
             texts.setdefault(c["text"], []).append((host, cfg))
+    # a program that one host converts and another refuses under the same options is refused for
+    # a host-specific reason, although its own syntax is valid everywhere
+    for cfg, hosts_err in refused.items():
+        if accepted.get(cfg):
+            host, err = hosts_err[0]
+            return {"payload": {"kind": "xrt", "src": source, "host": host, "cfg": list(cfg), "runtime": None},
+                    "diffs": ["conversion on host %s raised %s, while host %s converts the same program" % (
+                        host, err, accepted[cfg][0])],
+                    "what": "%s: refused on host %s only (%s)" % (label, host, env.cfg_name(cfg))}
     for text, origins in texts.items():
         for rt in runtimes:
             e = pool_.get(rt).call({"op": "run", "text": text, "mode": "eval"})
